@@ -50,6 +50,7 @@ int sut_scale_count(void);
 const char *sut_scale_name(int scale);
 /* convert instant given in scale `from` to scale `to`; returns 0 and *out nul (y=0) when rejected */
 sut_inst_t sut_rescale(sut_inst_t i, int from, int to);
+sut_inst_t sut_rescale_zoned(sut_inst_t i, int from, int to, const char *zone);   /* .y == -2: zone lost */
 int sut_scale_ndim(int scale, int y, int m);
 int sut_scale_wday(int scale, sut_inst_t i);   /* 1=Mon..7=Sun as echse reports */
 
